@@ -32,9 +32,9 @@ def nelems(count):
 
 # ------------------------------------------------------------------ configurations
 DEFAULT_CFG = dict(np=1, via='info', h_align=None, v_align=None, r_align=None, ea=None, ibuf=None,
-                   swap=None, hash=None, hcoll=None, safe=None, naggr=None, chunk=None, io=None)
+                   swap=None, hash=None, hcoll=None, safe=None, naggr=None, chunk=None, io=None, move_unit=None)
 DIMS = ['np', 'via', 'h_align', 'v_align', 'r_align', 'ea', 'ibuf', 'swap', 'hash', 'hcoll', 'safe',
-        'naggr', 'chunk', 'io']
+        'naggr', 'chunk', 'io', 'move_unit']
 ALIGN_VALUES = [4, 64, 512, 4096, 6, 100, 1001]     # incl. non-multiples of 4
 HASH_VALUES = [1, 2, 256, None]
 
@@ -66,6 +66,9 @@ def cfg_env(cfg):
         env.append('PNETCDF_VERIF_HDR_CHUNK=%d' % cfg['chunk'])
     if cfg.get('io') is not None:
         env.append('OMPI_MCA_io=%s' % cfg['io'])
+    if cfg.get('move_unit') is not None:
+        # hook H2: caps the per-rank round size of the data mover run by enddef after a redef
+        env.append('PNETCDF_VERIF_MOVE_UNIT=%d' % cfg['move_unit'])
     if cfg.get('via') == 'env':
         hints = cfg_hints(cfg)
         if hints:
@@ -142,9 +145,132 @@ def config_set(rng, n_extra):
     return res
 
 
+def redef_config_set(rng, thorough):
+    """configurations for the redefinition family: the data mover of enddef divides every moved
+    block among the ranks, in rounds of at most MOVE_UNIT bytes per rank; rank counts that do not
+    divide the block lengths and small move units reach its partial last round"""
+    out = [dict(DEFAULT_CFG)]
+    def add(np_, mu, **kw):
+        c = dict(DEFAULT_CFG); c['np'] = np_; c['move_unit'] = mu; c.update(kw)
+        out.append(c)
+    add(3, None)
+    add(3, rng.choice([8, 16]))
+    add(1, rng.choice([8, 16, 100]))
+    add(2, rng.choice([None, 8, 100]))
+    add(4, rng.choice([None, 16, 100]))
+    if thorough:
+        for k in (5, 6, 7, 8):
+            add(k, rng.choice([None, 8, 16, 100]))
+        add(3, 100)
+        add(2, 16)
+    # one with other dimensions on top
+    c = rand_cfg(rng, np_=rng.choice([2, 3, 3, 4]), dims=[rng.choice(['h_align', 'r_align', 'v_align', 'hcoll', 'safe', 'naggr', 'via'])])
+    c['move_unit'] = rng.choice([None, 8, 16, 100])
+    out.append(c)
+    seen, res = set(), []
+    for c in out:
+        key = cfg_repr(c)
+        if key not in seen:
+            seen.add(key); res.append(c)
+    return res
+
+
 # ------------------------------------------------------------------ logical programs
 class Program:
     pass
+
+
+def gen_redef_program(rng):
+    """write every variable completely -> redef -> grow the header (large attribute, h_minfree) and/or
+    add a fixed-size / record variable -> enddef (the data sections move) -> read everything back"""
+    p = Program()
+    s = Schema(rng, maxlen=9, want_rec=rng.chance(3, 4))
+    p.bigvid = None
+    p.s = s
+    p.atts = []
+    if rng.chance(1, 2):
+        p.atts.append((-1, 'title', 2, [rng.range(65, 90) for _ in range(rng.range(1, 9))]))
+    p.steps = []
+    written, vmax = {}, {}
+    seedctr = rng.below(900)
+    numrecs = 0
+    nrec = rng.range(2, 5)
+    order = list(s.vars)
+    rng.shuffle(order)
+    for v in order:
+        start = [0] * v.nd
+        count = [nrec if (i == 0 and v.isrec) else d for i, d in enumerate(v.shape)]
+        stride = [1] * v.nd
+        tok, memk, flex, bufkind = pick_mem(rng, v, 0, False)
+        lim = O.pat_lim(memk, v.xtype)
+        seedctr += 1
+        seed = seedctr % lim
+        p.steps.append(dict(kind='puts', ops=[dict(op='put', vid=v.vid, start=start, count=count, stride=stride, seed=seed,
+                                                   tok=tok, memk=memk, flex=flex, bufkind=bufkind, lim=lim)]))
+        for k, idx in enumerate(O.req_indices(start, count, stride)):
+            written[(v.vid, tuple(idx))] = O.pat_value(seed, k, lim)
+        vmax[v.vid] = lim
+        if v.isrec:
+            numrecs = max(numrecs, nrec)
+    # the redefinition
+    mods, newatts = [], []
+    dims2 = list(s.dims)
+    vars2 = list(s.vars)
+    ea2 = None
+    kinds = ['att', 'att', 'fixvar', 'recvar', 'minfree']
+    rng.shuffle(kinds)
+    for kind in kinds[:rng.range(1, 2)]:
+        if kind == 'att':
+            n = rng.choice([600, 1500, 3000])
+            vals = [97 + (i * 7) % 26 for i in range(n)]
+            nm = 'history' if not newatts else 'comment'      # two distinct attributes at most
+            mods.append('put_att 0 -1 %s 2 %d %s' % (hx(nm), n, fmt_list(vals)))
+            newatts.append((-1, nm, 2, vals))
+        elif kind == 'fixvar':
+            fixed_ids = [i for i, d in enumerate(dims2) if d[1] != 0]
+            ids = [rng.choice(fixed_ids) for _ in range(rng.range(1, 2))]
+            xt = rng.choice(s.types)
+            nv = Var(len(vars2), 'n%d' % len(vars2), xt, ids, [dims2[i][1] for i in ids], False)
+            vars2.append(nv)
+            mods.append('def_var 0 %s %d %d %s' % (hx(nv.name), xt, nv.nd, ' '.join(map(str, ids))))
+        elif kind == 'recvar':
+            recid = [i for i, d in enumerate(dims2) if d[1] == 0]
+            if not recid:
+                recid = [len(dims2)]
+                dims2.append(('t', 0))
+                mods.append('def_dim 0 %s -1' % hx('t'))
+            fixed_ids = [i for i, d in enumerate(dims2) if d[1] != 0]
+            ids = recid + [rng.choice(fixed_ids) for _ in range(rng.range(0, 1))]
+            xt = rng.choice(s.types)
+            nv = Var(len(vars2), 'n%d' % len(vars2), xt, ids, [dims2[i][1] for i in ids], True)
+            vars2.append(nv)
+            mods.append('def_var 0 %s %d %d %s' % (hx(nv.name), xt, nv.nd, ' '.join(map(str, ids))))
+        else:
+            ea2 = [rng.choice([600, 1000]), 0, rng.choice([0, 100, 36]), 0]
+    p.steps.append(dict(kind='redef', mods=mods, ea=ea2))
+    # schema after the redefinition (for the model)
+    s2 = Schema.__new__(Schema)
+    s2.__dict__.update(s.__dict__)
+    s2.dims, s2.vars = dims2, vars2
+    p.s2 = s2
+    p.atts2 = p.atts + newatts
+    p.final = []
+    for v in s.vars:
+        if v.isrec and numrecs == 0:
+            continue
+        start = [0] * v.nd
+        count = [numrecs if (i == 0 and v.isrec) else d for i, d in enumerate(v.shape)]
+        tok, memk, flex, bufkind = pick_mem(rng, v, vmax.get(v.vid, 0), True)
+        p.final.append(dict(kind='get', ops=[dict(op='get', vid=v.vid, start=start, count=count, stride=[1] * v.nd,
+                                                   tok=tok, memk=memk, flex=flex, bufkind=bufkind,
+                                                   defined=[True] * nelems(count))]))
+    # the same reads right after the enddef, before the file is closed
+    p.steps += [dict(kind='get', ops=[dict(st['ops'][0])]) for st in p.final]
+    p.numrecs = numrecs
+    p.written = written
+    p.has_recstride = False
+    p.redef = True
+    return p
 
 
 def pick_mem(rng, v, vmax, forget):
@@ -437,6 +563,18 @@ def layout_step(sess, lrng, p, step, key, trace, allow_indep=True):
         ln = sess.emit('* inq_numrecs %d' % f, kind='other')
         trace.append(dict(line=ln, key=key, other=True))
         return
+    if kind == 'redef':
+        sess.emit('* redef %d' % f)
+        for m in step['mods']:
+            sess.emit('* ' + m)
+        if step.get('ea'):
+            sess.emit('* _enddef %d %s' % (f, fmt_list(step['ea'])), kind='enddef')
+        else:
+            sess.emit('* enddef %d' % f, kind='enddef')
+        ln = sess.emit('* inq %d' % f, kind='inq')
+        trace.append(dict(line=ln, key='inqR', inq=True))
+        sess.emit('* snapshot %d' % f, kind='snapshot', noframe=True)
+        return
     ops = step['ops']
     v = s.vars[ops[0]['vid']]
     op = 'put' if kind == 'puts' else 'get'
@@ -686,7 +824,7 @@ def compare(p, ref, ob):
                 diffs.append(('data-differs', 'logical get %s element %d: %s vs %s' %
                               (k, e, sorted(x.hex() for x in va), sorted(x.hex() for x in vb))))
                 break
-    for k in ('inq0', 'inq1', 'inq2'):
+    for k in ('inq0', 'inqR', 'inq1', 'inq2'):
         if ref['hdr'].get(k) != ob['hdr'].get(k):
             a, b = ref['hdr'].get(k), ob['hdr'].get(k)
             d = ''
@@ -775,6 +913,16 @@ Definition nums (i : info) : list Z :=
 Definition enddef_case (user : option info) (env hook safe : option (list byte)) (np : Z) (h : hdr) (ea : enddef_args) : list Z * list Z * list Z :=
   let r := reported_after_enddef user env hook safe np h ea in
   (nums (reported_after_open user env hook safe np), nums (fst r), lay_summary (snd r)).
+Definition redef_case (user : option info) (env hook safe : option (list byte)) (np : Z)
+           (h1 : hdr) (ea1 : enddef_args) (h2 : hdr) (ea2 : enddef_args) : list Z * list Z :=
+  let c := fst (open_config user env hook safe np) in
+  match snd (cfg_enddef c h1 ea1 0 None 0) with
+  | None => ([-1], [-1])
+  | Some l1 =>
+      (lay_summary (Some l1),
+       lay_summary (snd (cfg_enddef c h2 ea2 (num_rec_vars_of h1)
+                                    (Some (l1, map (is_recvar (h_dims h1)) (h_vars h1))) (l_begin_rec l1))))
+  end.
 Definition tiles_summary (d : disk) (pairs : list (Z * Z)) : list (Z * list Z) :=
   map (fun p => (fst p, dk_read d (fst p) (snd p))) pairs.
 Fixpoint adj_disjoint (l : list triple) : bool :=
@@ -790,6 +938,16 @@ Fixpoint adj_disjoint (l : list triple) : bool :=
 Definition pairs_disjoint (ps : list (Z * Z)) : list Z :=
   [if adj_disjoint (sort_triples (mk_triples (filter (fun p => 0 <? snd p) ps) 0)) then 1 else 0].
 ''' % '; '.join(COQ_KEYS)
+
+
+def coq_redef_case(idx, p, cfg):
+    """layout after create+enddef and after redef+enddef (NC_begins with the old header)"""
+    ea = cfg.get('ea') or [0, 0, 0, 0]
+    rd = [st for st in p.steps if st['kind'] == 'redef'][0]
+    ea2 = rd.get('ea') or [0, 0, 0, 0]
+    p2 = Program(); p2.s = p.s2; p2.atts = p.atts2
+    return 'Eval vm_compute in (%d, redef_case %s %s (mkeargs %s) %s (mkeargs %s)).\n' % (
+        idx, coq_cfg_args(cfg), coq_hdr(p), ' '.join('(%d)' % x for x in ea), coq_hdr(p2), ' '.join('(%d)' % x for x in ea2))
 
 
 def coq_enddef_case(idx, p, cfg):
